@@ -51,6 +51,12 @@ Proof.
   destruct (hv_set_round_ok VS off _ _ _ A Es) as [A' B']. split; [exact A'|congruence].
 Qed.
 
+Lemma pres_enter_new_round_open off h r : pres off (enter_new_round_open h r).
+Proof.
+  intros n n' o H. unfold enter_new_round_open.
+  destruct (step n <? 8); [apply pres_enter_new_round; exact H|apply pres_ret; exact H].
+Qed.
+
 Lemma pres_enter_precommit off h r : pres off (enter_precommit h r).
 Proof.
   intros n n' o H. unfold enter_precommit.
@@ -167,7 +173,7 @@ Proof.
             [apply (pres_frame _ _ (fsat_enter_prevote hh (round n2))); exact H2|apply pres_ret; exact H2].
       - destruct (N.eqb (v_type v) 2); [|discriminate]. cbn zeta.
         destruct (maj23 _) as [b|].
-        + destruct (b_hash b); [apply pres_enter_new_round; exact H1|].
+        + destruct (b_hash b); [apply pres_enter_new_round_open; exact H1|].
           intro E. apply bind_ok in E as (n4 & o4 & o5 & E4 & E5 & _).
           apply bind_ok in E4 as (n3 & o3 & o6 & E3 & E6 & _).
           apply bind_ok in E3 as (n2 & o2' & o7 & E2' & E7 & _).
